@@ -1,0 +1,13 @@
+//go:build verif
+
+package store
+
+// Verification hook (build tag "verif" only): named control points at which a harness may
+// run another operation or snapshot the data directory. See /verif/DESIGN.md.
+var VerifHook func(point string)
+
+func verifPoint(point string) {
+	if h := VerifHook; h != nil {
+		h(point)
+	}
+}
